@@ -1,5 +1,6 @@
 import inspect
 import sys
+import threading
 from typing import Callable, Dict, List, Optional, Set, Tuple, Type, Union, Any
 
 from ..utils import exceptions as exc
@@ -62,6 +63,7 @@ class BaseParser:
         return inst
 
     def __init__(self, obj, options: Options = None):
+        self._forward_lock = threading.RLock()
         self.obj = obj
         self.init_kwargs = {"options": options}
         self.options: Options = self.options_cls.generate_from(options)
@@ -211,6 +213,13 @@ class BaseParser:
     def resolve_forward_refs(self, local_vars=None, ignore_errors: bool = True):
         if not self.forward_refs:
             return False
+        # the first calls of several threads arrive here together: resolve once, the others wait
+        with self._forward_lock:
+            if not self.forward_refs:
+                return False
+            return self._resolve_forward_refs(local_vars=local_vars, ignore_errors=ignore_errors)
+
+    def _resolve_forward_refs(self, local_vars=None, ignore_errors: bool = True):
         clear_refs = []
         resolved = False
         # todo: add resolve hooks so that application code can execute lazy-load type process logic
